@@ -394,6 +394,80 @@ fn long_shuffle(plies: usize) -> Result<(), String> {
     })?
 }
 
+/// directed: a long history of mostly distinct positions (quiet moves only, chosen by a seeded
+/// generator, so that nothing is captured and the game goes on), then two rounds of a
+/// reversible manoeuvre from the position reached: the flag is due exactly where the model's
+/// occurrence count reaches three, however many positions the history holds
+fn long_walk(seed: u64, plies: usize) -> Result<(), String> {
+    let init = calibrate()?;
+    with_engine(|e| -> Result<(), String> {
+        let start = Pos::from_fen("r3k2r/1q6/8/8/8/8/6Q1/R3K2R w - - 0 1").ok_or("walk root")?;
+        e.set_board(to_board(&start)?);
+        let mut m = Model { pos: start.clone(), counts: HashMap::new(), init: init as u32 };
+        m.set(start);
+        let mut g = Expand(seed ^ 0x0c15);
+        let mut trace = vec![];
+        let mut st = Stats::new();
+        let mut distinct = std::collections::HashSet::new();
+        for i in 0..plies {
+            if trace.len() > 10 {
+                trace.clear();
+                trace.push(format!("...{i} plies of a quiet walk ({} distinct positions)", distinct.len()));
+            }
+            let legal = m.pos.legal();
+            // quiet, non-pawn, non-castling moves that keep the game running and the side that
+            // moved out of danger of an immediate capture race: any such move will do
+            let quiet: Vec<Mv> = legal
+                .iter()
+                .copied()
+                .filter(|mv| {
+                    let k = m.pos.kind(*mv);
+                    if k.capture || k.pawn_move || k.castle_k || k.castle_q {
+                        return false;
+                    }
+                    let n = m.pos.apply(*mv);
+                    let nl = n.legal();
+                    !nl.is_empty() && !nl.iter().any(|r| n.kind(*r).capture)
+                })
+                .collect();
+            let pool = if quiet.is_empty() { legal.clone() } else { quiet };
+            if pool.is_empty() {
+                break;
+            }
+            let mv = pool[g.below(pool.len() as u64) as usize];
+            play(e, &mut m, mv, &mut trace, &mut st)?;
+            distinct.insert(m.pos.key());
+            // at about every other position: two rounds of a reversible manoeuvre, i.e. the second
+            // and third occurrence of the position just reached, with 700+ other positions in the
+            // history by the end (an implementation that forgets old or rare positions is wrong
+            // exactly when forgetting falls between two occurrences)
+            if g.below(2) == 0 {
+                if let Some(cyc) = shuffles(&m.pos).first().copied() {
+                    for _ in 0..2 {
+                        for mv in cyc {
+                            play(e, &mut m, mv, &mut trace, &mut st)?;
+                            distinct.insert(m.pos.key());
+                        }
+                    }
+                }
+            }
+        }
+        // the position reached has been seen (most probably) once: repeat it twice more
+        let sh = shuffles(&m.pos);
+        if let Some(cyc) = sh.first() {
+            for _ in 0..3 {
+                for mv in cyc {
+                    play(e, &mut m, *mv, &mut trace, &mut st)?;
+                }
+            }
+        }
+        if std::env::var("VERIF_DEBUG_WALK").is_ok() {
+            eprintln!("long_walk: {} distinct positions, final `{}`, cycle found: {}", distinct.len(), m.pos.fen(), sh.first().is_some());
+        }
+        Ok(())
+    })?
+}
+
 fn strategy() -> impl Strategy<Value = PluginCase> {
     let op = prop_oneof![
         1 => root_strategy(20).prop_map(POp::SetBoard),
@@ -421,6 +495,16 @@ fn worker(ctx: &WorkerCtx) -> Result<(), Fail> {
         let mut st = ctx.stats.borrow_mut();
         st.eval(1);
         st.class("directed: knight shuffle with > 255 repetitions");
+        drop(st);
+        for w in 0..ctx.tier.pick(2u64, 12) {
+            let plies = ctx.tier.pick(700, 1500);
+            let seed = ctx.wseed(1500 + w);
+            guarded(|| long_walk(seed, plies)).unwrap_or_else(Err).map_err(|d| Fail { case: json!({"long_walk": [seed, plies]}), detail: d })?;
+            let mut st = ctx.stats.borrow_mut();
+            st.eval(1);
+            st.class("directed: quiet walk over hundreds of distinct positions, then a repetition of the position reached");
+        }
+        let mut st = ctx.stats.borrow_mut();
         st.nontrivial(digest(&plies));
     }
     if ctx.idx == 1 % ctx.n {
@@ -500,6 +584,9 @@ fn replay(v: &Value) -> Result<(), String> {
     if v.get("host_stage").is_some() {
         return host_stage(&mut Stats::new(), Tier::Quick);
     }
+    if let Some(a) = v.get("long_walk").and_then(|x| x.as_array()) {
+        return long_walk(a[0].as_u64().unwrap_or(0), a[1].as_u64().unwrap_or(700) as usize);
+    }
     if let Some(p) = v.get("long_shuffle") {
         return long_shuffle(p.as_u64().unwrap_or(1100) as usize);
     }
@@ -511,7 +598,7 @@ pub const C15: CheckDef = CheckDef {
     id: "C15",
     worker,
     replay,
-    rule: "system under test: libchess_bot.so built from the working tree, loaded through chess_api::ChessApiRef::load_from_file, a fresh new_engine() per case, driven only through chess_api::ChessEngine. case = op list over {set_board(generated position), set_board(the current position again, other clocks), legal move (biased classes), arbitrary (from,to,promotion) triple, near miss of a legal move (promotion without piece, ordinary move with a piece, castling target without the right, en-passant square without marker), reversible manoeuvre a b a^-1 b^-1 repeated r <= 5 times, board(), evaluate(limit k)}; a directed family repeats a knight shuffle for > 1000 plies (> 255 repetitions); a host stage lets two copies of the plugin play under the real `chess-cli bot-fight` referee at 1 ms, 3 ms and 0 s per move (verdict: host panic / abort only). Oracle: reference position + HashMap<position key, count> cleared by set_board: make_move valid iff reference-legal; invalid leaves board() unchanged and raises no flag; valid makes board() equal the reference successor (text, ==, hash) and raises the flag iff the new key's count becomes exactly 3; evaluate returns None or a reference-legal move. Whether the set position itself counts as the first occurrence is calibrated at the start of every run with a 12-ply knight shuffle (flag at ply 8 -> counts; at ply 12 -> does not) and the reading in force is recorded in samples; a plugin that fits neither reading is a violation. Non-trivial = some key reaches count >= 3, or an illegal move is offered after >= 1 legal move; distinct by move trace.",
+    rule: "system under test: libchess_bot.so built from the working tree, loaded through chess_api::ChessApiRef::load_from_file, a fresh new_engine() per case, driven only through chess_api::ChessEngine. case = op list over {set_board(generated position), set_board(the current position again, other clocks), legal move (biased classes), arbitrary (from,to,promotion) triple, near miss of a legal move (promotion without piece, ordinary move with a piece, castling target without the right, en-passant square without marker), reversible manoeuvre a b a^-1 b^-1 repeated r <= 5 times, board(), evaluate(limit k)}; a directed family repeats a knight shuffle for > 1000 plies (> 255 repetitions), another walks quietly over 700+ mostly distinct positions and then repeats the position reached; a host stage lets two copies of the plugin play under the real `chess-cli bot-fight` referee at 1 ms, 3 ms and 0 s per move (verdict: host panic / abort only). Oracle: reference position + HashMap<position key, count> cleared by set_board: make_move valid iff reference-legal; invalid leaves board() unchanged and raises no flag; valid makes board() equal the reference successor (text, ==, hash) and raises the flag iff the new key's count becomes exactly 3; evaluate returns None or a reference-legal move. Whether the set position itself counts as the first occurrence is calibrated at the start of every run with a 12-ply knight shuffle (flag at ply 8 -> counts; at ply 12 -> does not) and the reading in force is recorded in samples; a plugin that fits neither reading is a violation. Non-trivial = some key reaches count >= 3, or an illegal move is offered after >= 1 legal move; distinct by move trace.",
     assumptions: &[
         "position identity = placement, side to move, castling rights, en-passant file (as the property states)",
         "the occurrence-counting reading is calibrated, not assumed (DESIGN.md C15)",
